@@ -151,6 +151,7 @@ class Clause:
     quick_shards: int = 1
     min_nontrivial: int = 1  # vacuity guard (whole run, this clause)
     steps: int = 30  # machine: stateful_step_count
+    fuzz: int = 0  # thorough tier: additionally drive strategy+oracle with atheris for this many runs
     doc: str = ""
 
 
